@@ -280,7 +280,10 @@ def scan_forbidden():
         for f in files:
             if f.endswith('.v'):
                 p = os.path.join(root, f)
-                src = strip_comments(open(p).read())
+                # string literals are data (pinned source text quotes python such as `nn.Parameter(...)` or `(*args)`): blank them first, keeping the
+                # line structure, then drop the comments
+                src = re.sub(r'"(?:[^"]|"")*"', lambda mm: '""' + '\n' * mm.group(0).count('\n'), open(p).read())
+                src = strip_comments(src)
                 # Section-local Variable/Hypothesis/Context are allowed: only flag them outside sections
                 depth = 0
                 for ln, line in enumerate(src.splitlines(), 1):
